@@ -237,6 +237,8 @@ def failFast (c : SCfg) (ls : List Label) : Option String :=
     | none => if ls.contains Label.brk && !ls.contains Label.pErr then some "fail-fast tripped although nothing failed finally" else none
     | some p =>
       let after := ls.drop p
+      -- the property's own wording: once an attempt has failed finally, no further attempt is dispatched
+      if after.any (fun l => match l with | .disp n _ => n > 0 | _ => false) then some "attempts dispatched after an attempt failed finally" else
       -- the trip happens when that notification is drained; after the BRK nothing is dispatched
       match idxOf? (· == Label.brk) after with
       | none => some "a final failure did not trip fail-fast"
